@@ -73,6 +73,7 @@ type grpScenario struct {
 	DClose    bool              `json:"dclose"`   // every group is closed a second time after Close returned
 	NoNet     bool              `json:"nonet"`    // never end a call by the safety-net context cancel
 	DFKind    string            `json:"dfkind"`   // how the start of a claim is failed: notleader (default) | conn
+	NPThen       int            `json:"npthen"`       // > 0: the topic has this many partitions from the moment c1's first Consume call returned
 	SessTO       int            `json:"sessto"`       // ms; > 0: Consumer.Group.Session.Timeout, ENFORCED by the simulated coordinator (heartbeat interval 50 ms)
 	RRetry       *int           `json:"rretry"`       // Consumer.Group.Rebalance.Retry.Max (default 2)
 	ORetry       *int           `json:"oretry"`       // Consumer.Offsets.Retry.Max (default 3)
@@ -94,6 +95,8 @@ func grpKErr(kind string) KError {
 		return ErrIllegalGeneration
 	case "notcoord":
 		return ErrNotCoordinatorForConsumer
+	case "load":
+		return ErrOffsetsLoadInProgress
 	}
 	return ErrNoError
 }
@@ -144,6 +147,12 @@ type grpSim struct {
 	coord    int             // listener (broker id - 1) that currently is the group's coordinator
 	hbOK     int             // heartbeats answered OK (the watchdog's clock)
 	hbSeen   map[string]int  // heartbeat requests seen per client
+	nretry   int             // refused coordinator lookups / initial OffsetFetches (a watchdog clock: a retry loop is spinning)
+	lookupFail map[string]bool   // coordinator lookups of this client are answered COORDINATOR_NOT_AVAILABLE
+	lookupLate map[string]bool   // ... from the moment its JoinGroup was answered NOT_COORDINATOR (scripted)
+	lookupN    map[string]int
+	onLookup   map[string]func() // one-shot hook at the fifth refused lookup (Close during the retry loop)
+	fetchFails map[string]int    // refused OffsetFetch requests of the current call (only the first three are logged)
 	failOff  map[string]int  // client -> partition whose ListOffsets requests fail (claim start fails)
 	failFetch   map[string]string // client -> how its OffsetFetch requests fail during the current Consume call
 	onFetchFail map[string]func() // one-shot hook at the first refused OffsetFetch (Close racing with the failing set-up)
@@ -163,6 +172,11 @@ func newGrpSim(rec *vRec, sc *grpScenario) (*grpSim, error) {
 	s.expect = map[string]bool{}
 	s.failOff = map[string]int{}
 	s.hbSeen = map[string]int{}
+	s.lookupFail = map[string]bool{}
+	s.lookupLate = map[string]bool{}
+	s.lookupN = map[string]int{}
+	s.onLookup = map[string]func(){}
+	s.fetchFails = map[string]int{}
 	s.failFetch = map[string]string{}
 	s.onFetchFail = map[string]func(){}
 	s.connLn = map[net.Conn]int{}
@@ -370,6 +384,31 @@ func (s *grpSim) moveCoord(locked bool) {
 	s.rec.Ev("coord_move", kv{"to": s.coord + 1})
 }
 
+// lookupRefused: the coordinator cannot be found for this client right now (scripted)
+func (s *grpSim) lookupRefused(cl string) bool {
+	s.mu.Lock()
+	if !s.lookupFail[cl] {
+		s.mu.Unlock()
+		return false
+	}
+	s.lookupN[cl]++
+	s.nretry++
+	n := s.lookupN[cl]
+	if n <= 3 {
+		s.rec.Ev("lookup_fail", kv{"c": cl})
+	}
+	var hook func()
+	if n == 5 { // (deep inside the retry loop: the first lookups belong to client.Coordinator's own retries)
+		hook = s.onLookup[cl]
+		delete(s.onLookup, cl)
+	}
+	s.mu.Unlock()
+	if hook != nil {
+		hook()
+	}
+	return true
+}
+
 func (s *grpSim) handle(req *request, li int) (encoderWithHeader, bool) {
 	cl := req.clientID
 	if res := s.stale(cl, li, req.body); res != nil {
@@ -399,7 +438,7 @@ func (s *grpSim) handle(req *request, li int) (encoderWithHeader, bool) {
 		s.mu.Lock()
 		lost := s.down[0] && s.sc.LookupFail
 		s.mu.Unlock()
-		if lost {
+		if lost || s.lookupRefused(cl) {
 			return &FindCoordinatorResponse{Version: r.Version, Err: ErrConsumerCoordinatorNotAvailable}, false
 		}
 		return s.findCoordinator(r.Version), false
@@ -407,7 +446,7 @@ func (s *grpSim) handle(req *request, li int) (encoderWithHeader, bool) {
 		s.mu.Lock()
 		lost := s.down[0] && s.sc.LookupFail
 		s.mu.Unlock()
-		if lost {
+		if lost || s.lookupRefused(cl) {
 			return &ConsumerMetadataResponse{Err: ErrConsumerCoordinatorNotAvailable}, false
 		}
 		s.mu.Lock()
@@ -451,7 +490,11 @@ func (s *grpSim) handle(req *request, li int) (encoderWithHeader, bool) {
 		s.mu.Lock()
 		if kind := s.failFetch[cl]; kind != "" {
 			// session set-up fails: the initial OffsetFetch of the session's offset manager is refused for the whole call
-			s.rec.Ev("ofetch_fail", kv{"c": cl, "kind": kind})
+			s.fetchFails[cl]++
+			s.nretry++
+			if s.fetchFails[cl] <= 3 {
+				s.rec.Ev("ofetch_fail", kv{"c": cl, "kind": kind, "n": s.fetchFails[cl]})
+			}
 			hook := s.onFetchFail[cl]
 			delete(s.onFetchFail, cl)
 			s.mu.Unlock()
@@ -684,6 +727,9 @@ func (s *grpSim) handleJoin(cl string, r *JoinGroupRequest) (encoderWithHeader, 
 	if kind != "ok" {
 		if kind == "unknown" {
 			s.removeMember(r.MemberId, "scripted")
+		}
+		if kind == "notcoord" && s.lookupLate[cl] {
+			s.lookupFail[cl] = true // ... and the new coordinator cannot be found
 		}
 		return fail(kind)
 	}
@@ -1057,6 +1103,13 @@ func (s *grpSim) coordDown() {
 	s.lns[0].Close()
 }
 
+func (s *grpSim) setNP(n int) {
+	s.mu.Lock()
+	s.np = n
+	s.rec.Ev("meta_change", kv{"np": s.np})
+	s.mu.Unlock()
+}
+
 func (s *grpSim) grow() {
 	s.mu.Lock()
 	s.np++
@@ -1094,6 +1147,24 @@ type grpRun struct {
 	firstSetup chan struct{}
 	setupOnce  sync.Once
 	growOnce   sync.Once
+	npMu       sync.Mutex
+	npArrived  int
+	npOpen     chan struct{}
+}
+
+// npGate: barrier of all clients after their first call; the last one to arrive changes the partition count
+func (r *grpRun) npGate(n int) {
+	r.npMu.Lock()
+	r.npArrived++
+	if r.npArrived == n {
+		r.sim.setNP(r.sc.NPThen)
+		close(r.npOpen)
+	}
+	r.npMu.Unlock()
+	select {
+	case <-r.npOpen:
+	case <-time.After(10 * time.Second):
+	}
 }
 
 var grpDefaultSess = grpSessScript{H: grpHandlerScript{Mode: "drain", N: 0, Mark: 99}, Trig: grpTrig{Kind: "none", At: "pre"}}
@@ -1172,7 +1243,9 @@ func (c *grpClient) fireL(at string, sess ConsumerGroupSession, simLocked bool) 
 		c.cancel()
 	case "close":
 		c.doClose()
-	case "ofetch_fail", "ofetch_fail_conn", "ofetch_fail_close":
+	case "nocoord_close", "nocoord_late_close":
+		// armed by the driver at the start of the call (no steering point is ever reached)
+	case "ofetch_fail", "ofetch_fail_conn", "ofetch_fail_close", "ofetch_fail_load", "ofetch_fail_load_close":
 		// armed when the SyncGroup request arrives: the session's initial OffsetFetch fails for good
 		sim := c.run.sim
 		if !simLocked {
@@ -1182,7 +1255,10 @@ func (c *grpClient) fireL(at string, sess ConsumerGroupSession, simLocked bool) 
 		if ss.Trig.Kind == "ofetch_fail_conn" {
 			sim.failFetch[c.name] = "conn"
 		}
-		if ss.Trig.Kind == "ofetch_fail_close" {
+		if ss.Trig.Kind == "ofetch_fail_load" || ss.Trig.Kind == "ofetch_fail_load_close" {
+			sim.failFetch[c.name] = "load" // OFFSETS_LOAD_IN_PROGRESS for as long as the call lasts
+		}
+		if ss.Trig.Kind == "ofetch_fail_close" || ss.Trig.Kind == "ofetch_fail_load_close" {
 			sim.onFetchFail[c.name] = c.doClose
 		}
 		if !simLocked {
@@ -1451,6 +1527,19 @@ func (c *grpClient) drive() {
 		delete(r.sim.failOff, c.name)
 		delete(r.sim.failFetch, c.name)
 		delete(r.sim.onFetchFail, c.name)
+		delete(r.sim.fetchFails, c.name)
+		delete(r.sim.lookupFail, c.name)
+		delete(r.sim.lookupLate, c.name)
+		delete(r.sim.lookupN, c.name)
+		delete(r.sim.onLookup, c.name)
+		switch ss.Trig.Kind {
+		case "nocoord_close": // the coordinator cannot be found from the start of this call; Close during the retry loop
+			r.sim.lookupFail[c.name] = true
+			r.sim.onLookup[c.name] = c.doClose
+		case "nocoord_late_close": // ... from the (scripted) NOT_COORDINATOR answer to JoinGroup on
+			r.sim.lookupLate[c.name] = true
+			r.sim.onLookup[c.name] = c.doClose
+		}
 		if ss.DF != nil && *ss.DF >= 0 {
 			r.sim.failOff[c.name] = *ss.DF
 		}
@@ -1479,6 +1568,11 @@ func (c *grpClient) drive() {
 		err := grpGuard(c, "Consume", func() error { return c.g.Consume(c.ctx, []string{grpTopic}, handler) })
 		net.Stop()
 		r.rec.Ev("consume_ret", kv{"c": c.name, "err": grpErrStr(err)})
+		if k == 0 && r.sc.NPThen > 0 {
+			// the topic is expanded / re-created with another partition count between two generations: at a moment when every
+			// client is between its first and its second Consume call (nobody sits between its metadata refresh and its join)
+			r.npGate(len(r.clients))
+		}
 		c.setStage("between")
 		c.mu.Lock()
 		stop := c.cancelled || c.closing
@@ -1511,8 +1605,9 @@ func (c *grpClient) drive() {
 }
 
 // grpAwait waits for done. A hang is reported (false) only when
-//   - the clients keep heartbeating but nothing else has happened for 300 heartbeats per client (the code under test is scheduled and
-//     alive, yet makes no progress: a criterion in units of its own periodic activity, not of wall-clock time), or
+//   - the clients keep heartbeating, or keep spinning in a retry loop (refused coordinator lookups / initial OffsetFetches),
+//     but nothing else has happened for 300 such requests per client (the code under test is scheduled and alive, yet makes
+//     no progress: a criterion in units of its own activity, not of wall-clock time), or
 //   - the whole process is blocked (three identical goroutine pictures without a runnable goroutine, as vAwait), or
 //   - a hard cap of 75 s is reached.
 func grpAwait(r *grpRun, done <-chan struct{}, d time.Duration) bool {
@@ -1524,11 +1619,12 @@ func grpAwait(r *grpRun, done <-chan struct{}, d time.Duration) bool {
 	snap := func() (int, int) {
 		r.sim.mu.Lock()
 		hb := r.sim.hbOK
+		clock := r.sim.hbOK + r.sim.nretry
 		r.sim.mu.Unlock()
 		r.rec.mu.Lock()
 		ev := r.rec.events
 		r.rec.mu.Unlock()
-		return ev - hb, hb
+		return ev - hb, clock
 	}
 	hard := time.Now().Add(75 * time.Second)
 	prog, hb0 := snap()
@@ -1585,7 +1681,7 @@ func grpRunScenario(t *testing.T, rec *vRec, sc *grpScenario) (out grpOutcome, e
 		sim.clients[c.C].lf = c.LF
 	}
 	sim.mu.Unlock()
-	run := &grpRun{rec: rec, sc: sc, sim: sim, firstSetup: make(chan struct{})}
+	run := &grpRun{rec: rec, sc: sc, sim: sim, firstSetup: make(chan struct{}), npOpen: make(chan struct{})}
 	for i := range sc.Clients {
 		cs := &sc.Clients[i]
 		var g ConsumerGroup
